@@ -120,3 +120,9 @@ Print Assumptions C14_random_solution_in_space.
 Print Assumptions C14_variable_sizes_regenerated.
 Print Assumptions C14_has_children_regenerated.
 Print Assumptions C14_variable_bounds_regenerated.
+
+(* state shared between objects (regenerated scan of the whole package: memoising decorators, mutable class attributes of non-pydantic classes, module-level
+   containers mutated by functions): there is none - tasks and variables do not share tables *)
+Theorem C14_no_shared_mutable_state : gen_no_shared_mutable_state = true.
+Proof. reflexivity. Qed.
+Print Assumptions C14_no_shared_mutable_state.
